@@ -123,7 +123,9 @@ def vars_wire(vs):
     return [[Q(v.name), dom_wire(v.output)] for v in sorted(vs, key=lambda v: v.name)]
 
 
-def to_wire(f):
+def to_wire(f, ext=False):
+    """`ext=True` (opt-in, used by C01) additionally serialises `Finitary` nodes of ops.stack / ops.cat /
+    ops.einsum as (finitary OP term*), which Model/C01Ext.lean desugars; default behaviour is unchanged."""
     if isinstance(f, Variable):
         return ["var", Q(f.name), dom_wire(f.output)]
     if isinstance(f, Number):
@@ -139,42 +141,79 @@ def to_wire(f):
         n = opname(f.op)
         if n not in EXACT_UNARY and n not in REDUCTION_OPS and n not in ("reshape", "getslice"):
             raise Unsupported(f"unary op {n}")
-        return ["unary", op_wire(f.op, tuple(f.arg.output.shape)), to_wire(f.arg)]
+        return ["unary", op_wire(f.op, tuple(f.arg.output.shape)), to_wire(f.arg, ext)]
     if isinstance(f, Binary):
         n = opname(f.op)
         if n not in EXACT_BINARY:
             raise Unsupported(f"binary op {n}")
-        return ["binary", op_wire(f.op), to_wire(f.lhs), to_wire(f.rhs)]
+        return ["binary", op_wire(f.op), to_wire(f.lhs, ext), to_wire(f.rhs, ext)]
     if isinstance(f, Reduce):
         n = opname(f.op)
         if n not in ASSOC:
             raise Unsupported(f"reduce op {n}")
-        return ["reduce", n, to_wire(f.arg), vars_wire(f.reduced_vars)]
+        return ["reduce", n, to_wire(f.arg, ext), vars_wire(f.reduced_vars)]
     if isinstance(f, Subs):
-        return ["subs", to_wire(f.arg), [[Q(k), to_wire(v)] for k, v in f.subs.items()]]
+        return ["subs", to_wire(f.arg, ext), [[Q(k), to_wire(v, ext)] for k, v in f.subs.items()]]
     if isinstance(f, Slice):
         s = f.slice
         return ["slice", Q(f.name), int(s.start), int(s.stop), int(s.step), int(f.output.dtype)]
     if isinstance(f, Stack):
-        return ["stack", Q(f.name)] + [to_wire(p) for p in f.parts]
+        return ["stack", Q(f.name)] + [to_wire(p, ext) for p in f.parts]
     if isinstance(f, Cat):
         sizes = [int(p.inputs[f.part_name].size) for p in f.parts]
-        return ["cat", Q(f.name), Q(f.part_name), sizes] + [to_wire(p) for p in f.parts]
+        return ["cat", Q(f.name), Q(f.part_name), sizes] + [to_wire(p, ext) for p in f.parts]
     if isinstance(f, Lambda):
-        return ["lambda", Q(f.var.name), int(f.var.output.size), to_wire(f.expr)]
+        return ["lambda", Q(f.var.name), int(f.var.output.size), to_wire(f.expr, ext)]
     if isinstance(f, Independent):
-        return ["independent", to_wire(f.fn), Q(f.reals_var), Q(f.bint_var), Q(f.diag_var),
+        return ["independent", to_wire(f.fn, ext), Q(f.reals_var), Q(f.bint_var), Q(f.diag_var),
                 int(f.fn.inputs[f.bint_var].size)]
     if isinstance(f, Align):
-        return ["align", to_wire(f.arg), [Q(n) for n in f.names]]
+        return ["align", to_wire(f.arg, ext), [Q(n) for n in f.names]]
     if isinstance(f, Contraction):
         r, b = opname(f.red_op), opname(f.bin_op)
         if r not in ASSOC or b not in ASSOC:
             raise Unsupported(f"contraction ops {r},{b}")
-        return ["contraction", r, b, vars_wire(f.reduced_vars)] + [to_wire(t) for t in f.terms]
+        return ["contraction", r, b, vars_wire(f.reduced_vars)] + [to_wire(t, ext) for t in f.terms]
     if isinstance(f, Delta):
-        return ["delta"] + [[Q(name), to_wire(point), to_wire(logd)] for name, (point, logd) in f.terms]
+        return ["delta"] + [[Q(name), to_wire(point, ext), to_wire(logd, ext)] for name, (point, logd) in f.terms]
+    if ext and isinstance(f, Finitary):
+        return finitary_wire(f, ext)
     raise Unsupported(type(f).__name__)
+
+
+def finitary_wire(f, ext=True):
+    """Finitary(ops.stack | ops.cat | ops.einsum, args) -> (finitary (OP params…) term*)  [opt-in, C01]."""
+    n = opname(f.op)
+    d = dict(getattr(f.op, "defaults", {}) or {})
+    args = [to_wire(a, ext) for a in f.args]
+    if n == "stack":
+        dim = int(d.get("dim", 0))
+        if dim != 0:
+            raise Unsupported("finitary stack dim != 0")
+        return ["finitary", ["stack", ["dim", 0]]] + args
+    if n == "cat":
+        axis = int(d.get("axis", 0))
+        if axis != 0 or any(len(a.output.shape) < 1 for a in f.args):
+            raise Unsupported("finitary cat axis != 0")
+        return ["finitary", ["cat", ["axis", 0], ["sizes", [int(a.output.shape[0]) for a in f.args]]]] + args
+    if n == "einsum":
+        eq = d["equation"].replace(" ", "")
+        if "->" not in eq or "." in eq:
+            raise Unsupported("einsum without explicit output / with ellipsis")
+        lhs, out = eq.split("->")
+        ins = lhs.split(",")
+        if len(ins) != len(f.args):
+            raise Unsupported("einsum arity")
+        letters = {}
+        for sub, a in zip(ins, f.args):
+            if len(sub) != len(a.output.shape):
+                raise Unsupported("einsum rank")
+            for c, size in zip(sub, a.output.shape):
+                if letters.setdefault(c, int(size)) != int(size):
+                    raise Unsupported("einsum size mismatch")
+        return ["finitary", ["einsum", ["letters", [[Q(c), k] for c, k in sorted(letters.items())]],
+                             ["inputs", [Q(s_) for s_ in ins]], ["output", Q(out)]]] + args
+    raise Unsupported(f"finitary {n}")
 
 
 def env_wire(env):
